@@ -342,6 +342,15 @@ ROUND7 = {'C01': ' Fields that take only one subclass or one tag (older payloads
 for _pid, _t in ROUND7.items():
     CHECKS[_pid]['text'] += _t
 
+BESIDE = {'C02': ' Sessions of different versions at the same time; the encoder itself under three threads (bytes beside = bytes alone).',
+          'C04': " Lifecycle steps and uses on a client's own keys while other clients work on theirs: answers as alone.",
+          'C06': ' Cryptographic operations of three clients with keys of their own at the same time, each result against its reference.',
+          'C14': " Searches by a client's own values while others search and change their own objects: result lists as alone.",
+          'C15': " Attribute operations on a client's own objects while others change theirs: answers as alone.",
+          'C17': ' Several sessions with different certificates at the same time: identity per session thread, owners of created objects.'}
+for _pid, _t in BESIDE.items():
+    CHECKS[_pid]['text'] += _t
+
 def build():
     with open(os.path.join(ROOT, 'properties.jsonl')) as f:
         pids = [json.loads(l)['id'] for l in f if l.strip()]
